@@ -49,6 +49,7 @@ def main():
                 "confirmed": {"base_commit": sh("git -C /repo rev-parse --short HEAD")[1].strip(), "demo_passes_clean": True, "demo_fails_with_patch": True,
                               "suite": o3.strip().splitlines()[0] if o3.strip() else "", "commands": [f"PYTHONPATH=<wt>/src /venv/bin/python _seed/demo{n}.py (clean: rc 0, patched: rc {rc_mut})", "/verif/tools/run_baseline.sh <wt> (all 1661 stable tests pass)", f"VERIF_REPO=<wt> /verif/check {pid} --tier quick"]},
                 "detected": detected,
+                "detected_at_import": detected,
                 "detected_by": sorted({l.split()[0] for l in o4.splitlines() if l.startswith("  " + pid + ".")}),
             }
             json.dump(meta, open(dst + "/meta.json", "w"), indent=1)
